@@ -127,6 +127,16 @@ class LinesearchSolver(NonlinearSolver):
                 if not np.isscalar(ref):
                     ref = ref.ravel()
 
+                negative = (ref - ref0) < 0
+                if np.any(negative):
+                    # Scaling by a negative factor (ref < ref0) reverses the order, so there the
+                    # upper bound becomes the lower bound of the scaled variable and vice versa.
+                    # A missing bound is an infinite one.
+                    lower = -np.inf if var_lower is None else np.ravel(var_lower)
+                    upper = np.inf if var_upper is None else np.ravel(var_upper)
+                    var_lower = np.where(negative, upper, lower)
+                    var_upper = np.where(negative, lower, upper)
+
                 if var_lower is not None:
                     if self._lower_bounds is None:
                         self._lower_bounds = np.full(len(system._outputs), -np.inf)
